@@ -130,6 +130,14 @@ class SealedByDefault(pg.Object):
   allow_symbolic_mutation = False
 
 
+@pg.members([
+    ('x', pg.typing.Any(default=None)),
+    ('items', pg.typing.List(pg.typing.Any(), default=[])),
+])
+class NoAssign(pg.Object):
+  """A class with the library default: attribute assignment is off unless enabled per instance."""
+
+
 # ---------------------------------------------------------------------------
 # C06: classes for equality / ordering laws
 # ---------------------------------------------------------------------------
